@@ -261,6 +261,64 @@ func checkC11(c *Check) {
 					}
 				})
 				okPath = sawPlain && sawConcat
+				if !okPath && sawPlain {
+					// the same text assembled in a local strings.Builder / bytes.Buffer: the group paths written in
+					// one ascending walk, then the route's own path, then String()
+					phiLeaves(pv, func(l ssa.Value) {
+						cl := asCall(l)
+						if cl == nil {
+							return
+						}
+						if n := callName(&cl.Call); n != "(*strings.Builder).String" && n != "(*bytes.Buffer).String" {
+							return
+						}
+						buf, isAl := strip(cl.Call.Args[0]).(*ssa.Alloc)
+						if !isAl {
+							return
+						}
+						var gw, pw []ssa.Instruction
+						other := false
+						for _, r := range referrers(buf) {
+							wc, isCall := r.(ssa.CallInstruction)
+							if !isCall {
+								continue
+							}
+							n := callName(wc.Common())
+							switch {
+							case strings.HasSuffix(n, ").WriteString"):
+								a := wc.Common().Args[1]
+								if gField("path")(a) {
+									gw = append(gw, wc)
+								} else if vParam(rt, 2)(a) {
+									pw = append(pw, wc)
+								} else {
+									other = true
+								}
+							case strings.HasSuffix(n, ").Grow"), strings.HasSuffix(n, ").String"), strings.HasSuffix(n, ").Len"), strings.HasSuffix(n, ").Cap"):
+							default:
+								other = true
+							}
+						}
+						if other || len(gw) != 1 || len(pw) != 1 {
+							return
+						}
+						// order: no group write after the own path; String() only behind the own path
+						if x, _ := (Query{Fn: rt}).After(pw[0], isInstr(gw[0])); x != nil {
+							return
+						}
+						if ok, _ := mustPrecede(rt, isInstr(pw[0]), cl); !ok {
+							return
+						}
+						// the group write is not skipped within an iteration
+						if from, isI := strip(gw[0].(ssa.CallInstruction).Common().Args[1]).(ssa.Instruction); isI {
+							if skip, _ := iterationSkips(rt, from, gw[0]); skip {
+								return
+							}
+						}
+						sawConcat = true
+					})
+					okPath = sawPlain && sawConcat
+				}
 				c.Cond(vParam(rt, 1)(ci.Common().Args[1]), key+":method", p.Pos(ci.Pos()), "method passed through", "Route registers under a different method than given")
 			}
 			c.Cond(okPath, key+":path", p.FuncPos(rt), "path = φ(routePath, (\"\" + g0.path + g1.path + …) + routePath)", "the registered path is not outer-to-inner group prefixes followed by the route's own path")
